@@ -162,6 +162,8 @@ def shards(tier, seed):
     for tok, depth in DOC_DEPTH[tier].items():
         for sh in docspace.shards_for(A12, depth, 1 if depth <= 3 else 2):
             out.append({"part": "docs", "tok": tok, "depth": depth, **sh})
+        for r in range(8):
+            out.append({"part": "docs", "tok": tok, "depth": 3 if tok != "REF" else 2, "ts": True, "r": r, "n": 8})
     return out
 
 
@@ -208,7 +210,8 @@ def run_shard(sh):
     tok, depth = sh["tok"], sh["depth"]
     p = st.part("docs-" + tok)
     seen = set()
-    for idx, text in docspace.walk(A12, depth, sh):
+    walker = ((None, t) for t in itertools.islice(docspace.ts_documents(depth), sh["r"], None, sh["n"])) if sh.get("ts") else docspace.walk(A12, depth, sh)
+    for idx, text in walker:
         st.transitions += 1
         if text in seen:
             continue
@@ -226,6 +229,6 @@ def run_shard(sh):
             st.outcomes.add(h64([type(t).__name__ for _, t in out[1]]))
         for lab, det in res:
             st.violation(case, f"{lab}: {det} :: tokenizer={tok} text={text!r}", label=f"docs-{lab}")
-        if len(idx) == depth and not st.samples and out is not None and len(out[1]) >= 2:
+        if idx is not None and len(idx) == depth and not st.samples and out is not None and len(out[1]) >= 2:
             st.sample({"part": "docs", "tokenizer": tok, "text": text})
     return st
